@@ -84,7 +84,7 @@ Sets == UNION {{VSet(KeyNames[x], S) : S \in SUBSET {KeysOf[x][i] : i \in 1..4}}
 Structs == {VStruct(f) : f \in {S \in EntrySets(Ids4) : \A e1 \in S, e2 \in S : e1[1] = e2[1] => e1 = e2}}
 Enums == {VEnum(Ids4[i], v) : i \in 1..4, v \in ESet}
 Vecs == {VVec(<<>>)} \cup {VVec(<<x>>) : x \in ESet} \cup {VVec(<<x, y>>) : x \in ESet, y \in ESet}
-        \cup {VVec(<<x, y, z>>) : x \in VSet3, y \in VSet3, z \in VSet3}
+        \cup {VVec(<<x, y, z>>) : x \in VSet3, y \in VSet3, z \in (IF Thorough THEN ESet ELSE VSet3)}
         \cup {VVec(Tup([i \in 1..n |-> E8[1 + (i % 8)]])) : n \in {8, 252}}
 Somes == {VSome(x) : x \in ESet \cup VSet3} \cup {VSome(VSome(VNone)), VSome(VSome(VSome(VInt("U8", <<7>>))))}
 Level1 == Maps \cup Sets \cup Structs \cup Enums \cup Vecs \cup Somes
@@ -98,7 +98,7 @@ Wrappers(r) == {VSome(r), VVec(<<r>>), VVec(<<r, VNone>>), VVec(<<E8[2], r>>), V
                 VMap("String", {<<<<195, 169>>, r>>}), VStruct({<<Ids4[2], r>>}), VStruct({<<Ids4[1], VNone>>, <<Ids4[3], r>>}),
                 VEnum(Ids4[3], r)}
 Level2 == UNION {Wrappers(r) : r \in L1Reps}
-L2Reps == UNION {Wrappers(r) : r \in {VVec(<<VNone, E8[2]>>), VMap("U16", {<<<<254, 0>>, V3[3]>>})}}
+L2Reps == IF Thorough THEN Level2 ELSE UNION {Wrappers(r) : r \in {VVec(<<VNone, E8[2]>>), VMap("U16", {<<<<254, 0>>, V3[3]>>})}}
 Level3 == UNION {Wrappers(r) : r \in L2Reps}
 
 --------------------------------------------------------------------------------
@@ -204,7 +204,7 @@ Export(v) ==
 Check(i, v) ==
   LET ok == Depth(v) <= MaxDepth
       e22 == EncRaw(v, <<2, 2>>, 1)  e11 == EncRaw(v, <<1, 1>>, 1)
-      mixed == Depth(v) <= 24          \* the long nesting chains are checked in the two pure encodings only
+      mixed == Thorough \/ Depth(v) <= 24   \* quick: the long nesting chains are checked in the two pure encodings only
       e12 == IF mixed THEN EncRaw(v, <<1, 2>>, 1) ELSE e11
       e21 == IF mixed THEN EncRaw(v, <<2, 1>>, 1) ELSE e22
       altSeq == SeqOfSet(IF ok THEN Alts(v) ELSE {})
@@ -222,6 +222,32 @@ Spec == Init /\ [][Next]_<<a, b>>
 
 Idx == (a - 1) * BS + b
 Theorems == b > 0 => Check(Idx, DomSeq[Idx])
+
+--------------------------------------------------------------------------------
+(* Cross-check of the reference with hand-written byte vectors of /repo/core/src/impls/test.rs
+   (test_vec, test_vec_value, test_bytes, test_bytes_segmented, test_u8_map, test_struct, test_option_some,
+   i16 min, u64 max, string): <<value, legacy bytes, current bytes>>. *)
+Golden == <<
+  <<VVec(<<VInt("U8", <<7>>), VInt("U8", <<8>>)>>), <<17, 2, 3, 7, 3, 8>>, <<43, 1, 3, 7, 1, 3, 8, 0>>>>,
+  <<VVec(<<VNone, VInt("U8", <<4>>)>>), <<17, 2, 0, 3, 4>>, <<43, 1, 0, 1, 3, 4, 0>>>>,
+  <<VBytes(<<1, 2, 3>>), <<18, 3, 1, 2, 3>>, <<44, 3, 1, 2, 3, 0>>>>,
+  <<VMap("U8", {<<<<0>>, VInt("U8", <<1>>)>>, <<<<2>>, VInt("U8", <<3>>)>>}), <<19, 2, 0, 3, 1, 2, 3, 3>>, <<45, 1, 0, 3, 1, 1, 2, 3, 3, 0>>>>,
+  <<VStruct({<<<<1, 0, 0, 0>>, VInt("U32", <<2, 0, 0, 0>>)>>, <<<<2, 0, 0, 0>>, VSome(VInt("I32", <<3, 0, 0, 0>>))>>}),
+    <<39, 2, 1, 7, 2, 2, 1, 8, 6>>, <<65, 1, 1, 7, 2, 1, 2, 1, 8, 6, 0>>>>,
+  <<VSome(VNone), <<1, 0>>, <<1, 0>>>>,
+  <<VInt("I16", <<0, 128>>), <<6, 255, 255, 255>>, <<6, 255, 255, 255>>>>,
+  <<VInt("U64", <<255, 255, 255, 255, 255, 255, 255, 255>>), <<9, 255, 255, 255, 255, 255, 255, 255, 255, 255>>,
+    <<9, 255, 255, 255, 255, 255, 255, 255, 255, 255>>>> >>
+GoldenTheorem ==
+  /\ \A i \in 1..Len(Golden) :
+       LET g == Golden[i] IN
+       /\ Dec(g[2], 1).ok /\ Dec(g[2], 1).value = g[1] /\ Dec(g[3], 1).ok /\ Dec(g[3], 1).value = g[1]
+       /\ ConvWalk(g[3]).b = g[2]
+       /\ (Cardinality({1}) = 1 /\ g[1].k \notin {"Map", "Struct"}) => (Enc1(g[1]).b = g[2] /\ Enc2(g[1]).b = g[3])
+  /\ Dec(<<44, 1, 1, 1, 2, 1, 3, 0>>, 1).value = VBytes(<<1, 2, 3>>)           \* test_bytes_segmented
+  /\ Dec(<<2, 7>>, 1).value = VBool(TRUE)                                      \* test_bool_non_zero
+  /\ Dec(<<1, 1, 1, 1, 1, 1, 1, 1, 1, 1, 1, 1, 1, 1, 1, 1, 1, 1, 1, 1, 1, 1, 1, 1, 1, 1, 1, 1, 1, 1, 1, 1, 0>>, 1).e = "tooDeep"  \* test_deserialize_too_deep
+ASSUME GoldenTheorem
 
 \* version table (printed once with the vectors; the driver uses it as the oracle for version handling)
 Versions == {<<ma, mi>> : ma \in 0..2, mi \in 0..30}
